@@ -40,7 +40,7 @@ def run(ctx):
     ctx.guard(raise_inventory, ctx, "C17")
     ctx.guard(accessor_totality, ctx, "C17.accessor-totality")
     ctx.guard(k19_match, ctx, "C17")
-    collect_walk_effects(ctx)
+    ctx.guard(collect_walk_effects, ctx)
     ctx.guard(kernel_raise_classes, ctx, "C17.assembly-raises")
     ctx.guard(builtin_method_lint, ctx, "C17.builtin-method")
     from ..rules_misc import k21_match_overrides
